@@ -25,6 +25,7 @@ struct cfg {
     char name[48];
     int kind; /* 0 dyn, 1 static-exact, 2 static-guard */
     int rmode;
+    size_t maxcap; /* model bound on the capacity: MAXCAP (depth-bounded runs) or smaller (runs to a fixpoint) */
 };
 static struct cfg g_cfg;
 
@@ -58,7 +59,6 @@ static void addop(int fn, int a, int b) {
 static const size_t copy_src[5][2] = {{0, 0}, {1, 1}, {3, 1}, {6, 6}, {5, 0}};   /* init_copy: (capacity,len) of src */
 static const size_t copy_cur[5] = {0, 0, 1, 4, 6};                                 /* init_copy_from_cursor lens; [0] is {NULL,0} */
 static const size_t cache_len[4][2] = {{0, 0}, {1, 2}, {3, 3}, {SIZE_MAX, 1}};     /* init_cache_and_update_cursors */
-static const int reserve_sel[6] = {0, 1, 2, 3, 4, 5};                              /* 0,1,2,cap,cap+1,MAXCAP */
 static void build_ops(void) {
     nops = 0;
     if (g_cfg.kind == 0) {
@@ -286,7 +286,7 @@ static size_t reserve_arg(int v) {
         case 2: return 2;
         case 3: return R.cap;
         case 4: return R.cap + 1;
-        default: return MAXCAP;
+        default: return g_cfg.maxcap;
     }
 }
 static void cat_lens(int v, size_t *l1, size_t *l2, bool *ok) {
@@ -303,7 +303,6 @@ static void cat_lens(int v, size_t *l1, size_t *l2, bool *ok) {
         default: *l1 = 0, *l2 = fit + 1; break;
     }
 }
-static const size_t whole_lens_sel[5] = {0, 1, 2, 3, 4}; /* 0, 1, fit, fit+1, (string only) NULL */
 static size_t whole_len(int v) {
     size_t fit = R.cap - R.len;
     return v == 0 ? 0 : v == 1 ? 1 : v == 2 ? fit : fit + 1;
@@ -321,11 +320,11 @@ static bool m_enabled(int op) {
     size_t fit = R.cap - R.len;
     switch (d->fn) {
         case F_INIT:
-        case F_INIT_COPY:
-        case F_INIT_COPY_CUR:
-        case F_INIT_CACHE:
         case F_ATTACH_EMPTY:
-        case F_ATTACH_FULL: return !R.live;
+        case F_ATTACH_FULL: return !R.live && d->a <= g_cfg.maxcap;
+        case F_INIT_COPY: return !R.live && copy_src[d->a][0] <= g_cfg.maxcap;
+        case F_INIT_COPY_CUR: return !R.live && copy_cur[d->a] <= g_cfg.maxcap;
+        case F_INIT_CACHE: return !R.live && (d->a == 3 || cache_len[d->a][0] + cache_len[d->a][1] <= g_cfg.maxcap);
         default: break;
     }
     if (!R.live) return false;
@@ -341,25 +340,25 @@ static bool m_enabled(int op) {
             if (!carg_enabled(d->a)) return false;
             size_t n = d->a < LA_N ? la_value(d->a, fit) : d->a == ARG_NULL0 ? 0 : d->a == ARG_SELF ? R.len : 1;
             if (d->a < LA_N && la_huge(d->a)) return dyn_overflows(n); /* otherwise it would really allocate SIZE_MAX bytes: OOM, out of scope */
-            return dyn_newcap(n) <= MAXCAP;
+            return dyn_newcap(n) <= g_cfg.maxcap;
         }
         case F_APPEND_BYTE_DYN:
-        case F_NULL_TERM: return dyn_newcap(1) <= MAXCAP;
+        case F_NULL_TERM: return dyn_newcap(1) <= g_cfg.maxcap;
         case F_CAT: {
             size_t a, b;
             bool ok;
             cat_lens(d->a, &a, &b, &ok);
             return ok && a <= 7 && b <= 7;
         }
-        case F_RESERVE: return (d->a != 3 || R.cap > 2) && (d->a != 4 || R.cap + 1 > 2) && reserve_arg(d->a) <= MAXCAP;
-        case F_RESERVE_SMART: return (d->a != 3 || R.cap > 2) && (d->a != 4 || R.cap + 1 > 2) && smart_newcap(reserve_arg(d->a)) <= MAXCAP;
+        case F_RESERVE: return (d->a != 3 || R.cap > 2) && (d->a != 4 || R.cap + 1 > 2) && reserve_arg(d->a) <= g_cfg.maxcap;
+        case F_RESERVE_SMART: return (d->a != 3 || R.cap > 2) && (d->a != 4 || R.cap + 1 > 2) && smart_newcap(reserve_arg(d->a)) <= g_cfg.maxcap;
         case F_RESERVE_REL:
         case F_RESERVE_SMART_REL: {
             if (!la_distinct(d->a, fit)) return false;
             size_t add = la_value(d->a, fit);
             if (add > SIZE_MAX - R.len) return true; /* must be refused: checked-add overflow */
             if (la_huge(d->a)) return false;         /* would really allocate: OOM, out of scope */
-            return (d->fn == F_RESERVE_REL ? (R.len + add > R.cap ? R.len + add : R.cap) : smart_newcap(R.len + add)) <= MAXCAP;
+            return (d->fn == F_RESERVE_REL ? (R.len + add > R.cap ? R.len + add : R.cap) : smart_newcap(R.len + add)) <= g_cfg.maxcap;
         }
         case F_WRITE_WHOLE_BUF: return d->a < 2 || (d->a == 2 ? fit > 1 : fit + 1 > 1);
         case F_WRITE_WHOLE_STR: return d->a < 2 || d->a == 4 || (d->a == 2 ? fit > 1 : fit + 1 > 1);
@@ -847,7 +846,7 @@ static void m_opname(int op, char *buf, size_t cap) {
         }
         case F_RESERVE:
         case F_RESERVE_SMART: {
-            static const char *v[] = {"0", "1", "2", "cap", "cap+1", "6"};
+            static const char *v[] = {"0", "1", "2", "cap", "cap+1", "model-max"};
             snprintf(buf, cap, "reserve%s(%s)", d->fn == F_RESERVE ? "" : "_smart", v[d->a]);
             break;
         }
@@ -891,11 +890,12 @@ static void m_opname(int op, char *buf, size_t cap) {
 
 static struct esx_model model = {.reset = m_reset, .enabled = m_enabled, .apply = m_apply, .canon = m_canon, .opname = m_opname, .teardown = m_teardown};
 
-static void set_cfg(int kind, int rmode) {
+static void set_cfg(int kind, int rmode, size_t maxcap) {
     g_cfg.kind = kind;
     g_cfg.rmode = rmode;
-    if (kind == 0) snprintf(g_cfg.name, sizeof(g_cfg.name), "bufw-dyn-r%d", rmode);
-    else snprintf(g_cfg.name, sizeof(g_cfg.name), "bufw-static-%s", kind == 1 ? "exact" : "guard");
+    g_cfg.maxcap = maxcap;
+    if (kind == 0) snprintf(g_cfg.name, sizeof(g_cfg.name), "bufw-dyn-r%d-cap%zu", rmode, maxcap);
+    else snprintf(g_cfg.name, sizeof(g_cfg.name), "bufw-static-%s-cap%zu", kind == 1 ? "exact" : "guard", maxcap);
     model.name = g_cfg.name;
     build_ops();
     model.nops = nops;
@@ -908,17 +908,31 @@ int main(int argc, char **argv) {
     rot_table['a'] = 'F';
     rot_table['F'] = ' ';
     rot_table[' '] = 'a';
-    static const int cfgs[5][2] = {{0, 0}, {0, 2}, {1, 0}, {2, 0}, {0, 1}};
-    int ncfg = v_thorough() ? 5 : 4, rc = 0, depth = 0;
-    for (int i = 1; i < argc; ++i)
+    /* {kind, realloc mode, capacity bound, depth (0 = run to the fixpoint), thorough only} */
+    static const int cfgs[][5] = {
+        {0, 0, 3, 0, 0}, {0, 2, 3, 0, 0}, {1, 0, 3, 0, 0}, {2, 0, 3, 0, 0}, {0, 1, 3, 0, 1},
+        {0, 0, 6, 4, 0}, {0, 2, 6, 4, 0}, {1, 0, 6, 4, 0}, {2, 0, 6, 4, 0}, {0, 1, 6, 4, 1},
+    };
+    int ncfg = (int)(sizeof(cfgs) / sizeof(cfgs[0])), rc = 0, depth = 0, fixcap = 0;
+    for (int i = 1; i < argc; ++i) {
         if (!strcmp(argv[i], "--depth") && i + 1 < argc) depth = atoi(argv[i + 1]);
-    for (int i = 0; i < (v_replay_token ? 5 : ncfg); ++i) {
-        set_cfg(cfgs[i][0], cfgs[i][1]);
-        if (v_replay_token) {
-            if (esx_token_is_for(v_replay_token, g_cfg.name)) rc |= esx_replay(&model, v_replay_token);
-            continue;
-        }
-        model.max_depth = depth ? depth : (v_thorough() ? 6 : 4);
+        if (!strcmp(argv[i], "--fixcap") && i + 1 < argc) fixcap = atoi(argv[i + 1]);
+    }
+    if (v_replay_token) /* the token names kind, realloc mode and capacity bound */
+        for (int k = 0; k < 5; ++k)
+            for (size_t mc = 1; mc <= MAXCAP; ++mc) {
+                static const int kr[5][2] = {{0, 0}, {0, 1}, {0, 2}, {1, 0}, {2, 0}};
+                set_cfg(kr[k][0], kr[k][1], mc);
+                if (esx_token_is_for(v_replay_token, g_cfg.name)) rc |= esx_replay(&model, v_replay_token);
+            }
+    for (int i = 0; i < ncfg; ++i) {
+        size_t mc = (size_t)cfgs[i][2];
+        if (cfgs[i][3] == 0 && fixcap) mc = (size_t)fixcap;
+        else if (cfgs[i][3] == 0 && v_thorough()) mc = 4;
+        set_cfg(cfgs[i][0], cfgs[i][1], mc);
+        if (v_replay_token) continue;
+        if (cfgs[i][4] && !v_thorough()) continue;
+        model.max_depth = cfgs[i][3] == 0 ? ESX_MAX_DEPTH : (depth ? depth : (v_thorough() ? 6 : 4));
         esx_run(&model);
     }
     v_finish();
